@@ -94,7 +94,7 @@ fn one(sink: &mut Sink, l: &Vector<V>, d: &VectorDiff<V>) {
 
 pub fn run(args: &Args, sink: &mut Sink) {
     let thorough = args.tier == "thorough";
-    let max_len = if thorough { 5 } else { 4 };
+    let max_len = if thorough { 6 } else { 4 };
     let payloads: Vec<Vec<V>> = vec![vec![], vec![1], vec![2, 1], vec![1, 2, 3]];
     // exhaustive: all vectors of length <= max_len over {1,2}, every diff kind with every index 0..len+2
     let mut n = 0u64;
@@ -137,7 +137,7 @@ pub fn run(args: &Args, sink: &mut Sink) {
     sink.stat_n("size_class_cases", m);
     // random: long vectors (beyond imbl's 64-element chunks), random diffs
     let mut rng = Rng(args.seed ^ 0xD1FF);
-    let rounds = if thorough { 6000 } else { 800 };
+    let rounds = if thorough { 100000 } else { 800 };
     for k in 0..rounds {
         let len = if rng.chance(1, 4) { rng.below(8) } else { 50 + rng.below(100) };
         let l: Vector<V> = (0..len).map(|_| rng.below(9) as V).collect();
